@@ -273,18 +273,19 @@ Qed.
 (* the judgement the check computes on every recorded run: code 0 means the run of the real loop is a path of the model's relation,
    hence (reach_topk) its answer is a top-`limit` selection of all matching traces of the portions processed *)
 Theorem loop_code_sound c n : loop_code c = (0%Z, n, 0%Z, 0%Z) ->
-  exists W f, reach (lc_all c) (part_of (lc_parts c)) (lc_k c) (lc_from0 c) n W f /\ map tid W = lc_final c
+  n = lc_portions c /\ exists W f, reach (lc_all c) (part_of (lc_parts c)) (lc_k c) (lc_from0 c) n W f /\ map tid W = lc_final c
               /\ topk (lc_k c) (U (lc_all c) (part_of (lc_parts c)) (lc_from0 c) n) W.
 Proof.
   unfold loop_code.
-  destruct (ids_distinct (map tid (lc_all c)) && Nat.ltb 0 (lc_k c) && N.eqb (N.of_nat (List.length (lc_steps c))) (lc_portions c)) eqn:Eg; cbn [negb]; [|discriminate].
-  apply andb_true_iff in Eg. destruct Eg as [Eg _]. apply andb_true_iff in Eg. destruct Eg as [Eid Ek].
+  destruct (ids_distinct (map tid (lc_all c)) && Nat.ltb 0 (lc_k c)) eqn:Eg; cbn [negb]; [|discriminate].
+  apply andb_true_iff in Eg. destruct Eg as [Eid Ek].
   destruct (run_model _ _ _ _ _ _ _ _) as [n' W f|st code e g] eqn:Er.
-  - destruct (negb (list_N_eqb (lc_final c) (map tid W))) eqn:Ef; [discriminate|].
+  - destruct (negb (N.eqb n' (lc_portions c))) eqn:En; [discriminate|].
+    destruct (negb (list_N_eqb (lc_final c) (map tid W))) eqn:Ef; [discriminate|].
     destruct (negb (topk_b _ _ W)) eqn:Et; [discriminate|]. intros H. injection H as <-.
     assert (Hr : reach (lc_all c) (part_of (lc_parts c)) (lc_k c) (lc_from0 c) n' W f)
       by (eapply run_model_reach; [apply reach0|exact Er]).
-    exists W, f. split; [exact Hr|]. split.
+    split; [apply negb_false_iff in En; now apply N.eqb_eq|]. exists W, f. split; [exact Hr|]. split.
     + apply negb_false_iff in Ef. clear -Ef. revert Ef. generalize (map tid W) as b. induction (lc_final c) as [|x a IH]; intros [|y b] H; cbn [list_N_eqb] in H; try discriminate; [reflexivity|].
       apply andb_true_iff in H. destruct H as [H1 H2]. apply N.eqb_eq in H1. subst y. f_equal. now apply IH.
     + apply Nat.ltb_lt in Ek.
